@@ -1,7 +1,12 @@
 (** C15 — clear hands over each element exactly once and never touches it
     again.  One block of theorems per container; proofs are in the
     containers' proof files. *)
-From Cstl Require Import Prelude SListModel SListProofs.
+From Cstl Require Import Prelude.
+From Cstl Require SListModel SListProofs TreeModel TreeProofs TreeSysProofs HeapModel HeapProofs
+  DListModel DListProofs DListProofs3 DListProofs5.
+
+Module SL.
+Import SListModel SListProofs.
 
 (** * singly-linked list *)
 Section SList.
@@ -50,3 +55,91 @@ Proof. vm_compute. reflexivity. Qed.
 Print Assumptions C15_slist_clear.
 Print Assumptions C15_slist_no_access_after_callback.
 Print Assumptions C15_slist_reusable.
+End SL.
+
+(** * binary tree and red-black tree (clear is shared: a traversal whose
+    callback fires on each node's last visit, POST or LEAF) *)
+Module TR.
+Import TreeModel TreeProofs TreeSysProofs.
+Section Tree.
+  Variable key : nat -> Z.
+  Variable kd : kind.
+  Notation step := (TreeModel.step key kd).
+
+  (** in every reachable state clear calls back a permutation of the held
+      elements, no identity twice, and leaves the freshly initialised tree *)
+  Theorem C15_tree_clear s s' out :
+    reach step t_init s -> step s Clear = Done s' out ->
+    s' = t_init /\ exists log, out = zids log /\ Permutation log (abs s) /\ NoDup (map eid log).
+  Proof. intros R. apply (clear_result_init key kd). apply (reach_tinv key kd); auto. Qed.
+
+  (** event view (reads of child links + visits): nothing about an element
+      follows its callback visit -- both children are captured before any visit *)
+  Theorem C15_tree_no_read_after_callback s d :
+    reach step t_init s -> quiet_after (tevents d (tr s)).
+  Proof.
+    intros R. apply clear_no_read_after_callback.
+    destruct (reach_tinv key kd s R) as (_ & H & _). exact H.
+  Qed.
+
+  (** reusable: the state after clear is the initial state, from which every
+      theorem of C01/C02 applies again *)
+  Theorem C15_tree_reusable s s' out :
+    reach step t_init s -> step s Clear = Done s' out -> reach step t_init s'.
+  Proof.
+    intros R E. destruct (C15_tree_clear s s' out R E) as (-> & _). apply reach_nil.
+  Qed.
+End Tree.
+Print Assumptions C15_tree_clear.
+Print Assumptions C15_tree_no_read_after_callback.
+Print Assumptions C15_tree_reusable.
+End TR.
+
+(** * heap (clear = the tree clear on the heap's linked tree) *)
+Module HP.
+Import HeapModel HeapProofs.
+Section Heap.
+  Variable key : nat -> Z.
+
+  Theorem C15_heap_clear h :
+    reach (step key) h_init h ->
+    Permutation (fst (clear h)) (elems (root h)) /\ NoDup (map eid (fst (clear h))) /\
+    snd (clear h) = h_init.
+  Proof.
+    intros R. pose proof (reach_inv key h R) as I.
+    split; [apply clear_log_perm|split; [apply clear_log_nodup; auto|apply clear_result_init; auto]].
+  Qed.
+End Heap.
+Print Assumptions C15_heap_clear.
+End HP.
+
+(** * doubly-linked list (pointer-level model: the node is unlinked before the
+    callback and its memory is released by the callback) *)
+Module DL.
+Import DListModel DListProofs DListProofs3 DListProofs5.
+Section DList.
+  Variable key : nat -> Z.
+  Notation step := (DListModel.step key).
+
+  (** in every reachable state, clear on list [i] calls back exactly its
+      contents, in order, releases every node, leaves an empty ring and touches
+      nothing else *)
+  Theorem C15_dlist_clear n s i l :
+    reach step (sys_init n) s -> nth_error (abs s) i = Some l ->
+    exists h', clear (hp s) (haddr i) = Ok (h', l, clear_evs (haddr i) l) /\ dl h' (haddr i) [] /\
+      (forall x, In x l -> hm h' x = None) /\
+      (forall x, ~ In x (haddr i :: l) -> hm h' x = hm (hp s) x).
+  Proof.
+    intros R E. pose proof (reach_wf key n s R) as W.
+    destruct (clear_log (hp s) (haddr i) l (wf_dl _ _ _ W i l E)) as (h' & H1 & H2 & H3 & H4 & _).
+    exists h'. auto.
+  Qed.
+
+  (** no node is read or written after its callback *)
+  Theorem C15_dlist_no_access_after_callback hd l :
+    NoDup (hd :: l) -> no_access_after_call (clear_evs hd l).
+  Proof. exact (clear_no_access_after_callback hd l). Qed.
+End DList.
+Print Assumptions C15_dlist_clear.
+Print Assumptions C15_dlist_no_access_after_callback.
+End DL.
